@@ -43,7 +43,7 @@ func statChanges(before, after run.Snapshot, paths []string) []mon.Problem {
 func c02(args []string) {
 	c := chk.New("C02", "exploration", args)
 	c.Build(false)
-	c.Rule("generated non-streaming graphs of command / Go-function processes and sources; for each graph subsets of its tasks (all subsets when <= 5 tasks, else random ones) get all their outputs pre-placed (bytes of an earlier complete run incl. audit files / arbitrary user bytes / empty files), and the history 'complete run, run again in place' (also: 4-16 independent chains that end in the sink and fan into one merging process, also a process whose out-port is declared through SetOut only; chains / two-output tasks / diamonds with outputs in nested, parent-relative and absolute directories, re-run completely and after deleting the last process's outputs; 4-16 independent chains re-run 25-60 times in place as separate processes and 60-150 times inside one process, so that every process finishes at the same moment); oracle = no start event of a skipped task, (inode, size, mtime_ns, sha256) of every pre-existing output unchanged, downstream tasks executed exactly once on the pre-existing bytes (reference evaluation), re-run executes nothing. distinct_nontrivial = distinct (graph shape, subset, content kind) with >= 1 skipped and >= 1 executed task, plus re-run histories")
+	c.Rule("[links and pass-through] histories: complete run, an intermediate output that has a consumer is moved away and linked back (relative and absolute link), run again twice: no command runs, no file appears, every entry keeps inode/mtime/bytes; a process whose out-port path is its input path ({i:in}), file there before the first run: its command never runs and the file is never touched. generated non-streaming graphs of command / Go-function processes and sources; for each graph subsets of its tasks (all subsets when <= 5 tasks, else random ones) get all their outputs pre-placed (bytes of an earlier complete run incl. audit files / arbitrary user bytes / empty files), and the history 'complete run, run again in place' (also: 4-16 independent chains that end in the sink and fan into one merging process, also a process whose out-port is declared through SetOut only; chains / two-output tasks / diamonds with outputs in nested, parent-relative and absolute directories, re-run completely and after deleting the last process's outputs; 4-16 independent chains re-run 25-60 times in place as separate processes and 60-150 times inside one process, so that every process finishes at the same moment); oracle = no start event of a skipped task, (inode, size, mtime_ns, sha256) of every pre-existing output unchanged, downstream tasks executed exactly once on the pre-existing bytes (reference evaluation), re-run executes nothing. distinct_nontrivial = distinct (graph shape, subset, content kind) with >= 1 skipped and >= 1 executed task, plus re-run histories")
 	c.Assume("subsets are subsets of tasks (all outputs of a task present), as the property quantifies; partial presence is C03's subject", ".audit.json files, log/ and atime are not judged")
 	rng := c.Rand("c02")
 	ngraphs := c.Pick(14, 120)
@@ -331,6 +331,7 @@ func c02(args []string) {
 	c02rerunMany(c)
 	c02pathShapes(c)
 	c02setOutOnly(c)
+	c02linksAndPassThrough(c)
 	c.Finish()
 }
 
@@ -631,5 +632,137 @@ func c02setOutOnly(c *chk.Ctx) {
 		}
 		c.Count("outputs_stat_compared", len(outs))
 		c.Nontrivial(fmt.Sprintf("setoutonly|%d", i))
+	})
+}
+
+// c02linksAndPassThrough: (a) history 'complete run, an intermediate output (which has a consumer) is moved away and
+// linked back, run again': the link is an existing output like any other; (b) a process whose out-port path is the
+// path of its input ("{i:in}"): the file is there before the first run, so its task never runs and the file is never
+// touched, in the first and in the second run.
+func c02linksAndPassThrough(c *chk.Ctx) {
+	starts := func(tr []vproto.Event, proc string) int {
+		n := 0
+		for _, e := range tr {
+			if e.Ev == "start" && (proc == "" || e.ID == proc) {
+				n++
+			}
+		}
+		return n
+	}
+	run.Parallel(c.Pick(6, 16), func(i int) {
+		root := c.CaseDir()
+		defer c.Drop(root)
+		link := i%2 == 0
+		s := &spec.Spec{Name: "linkpass", MaxTasks: 3, Sources: map[string]string{"data/n0.txt": "n0\n", "data/n1.txt": "n1\n"}, Dirs: []string{"archive"}}
+		in := []spec.PortDecl{{Name: "in"}}
+		first := &spec.Proc{Name: "UP", Kind: spec.KCmd, Cmd: spec.BuildCmd("UP", in, []spec.PortDecl{{Name: "out"}}, nil, nil, nil)}
+		first.Outs = []*spec.Out{{Port: "out", Pattern: "{i:in}.up.out"}}
+		if !link {
+			first.Outs = []*spec.Out{{Port: "out", Pattern: "{i:in}"}}
+		}
+		s.Procs = append(s.Procs, &spec.Proc{Name: "src", Kind: spec.KFileSource, Files: []string{"data/n0.txt", "data/n1.txt"}}, first,
+			// the consumers name their outputs after the full path of their input
+			&spec.Proc{Name: "CNT", Kind: spec.KCmd, Cmd: spec.BuildCmd("CNT", in, []spec.PortDecl{{Name: "out"}}, nil, nil, nil), Outs: []*spec.Out{{Port: "out", Pattern: "{i:in}.cnt.out"}}},
+			&spec.Proc{Name: "FIN", Kind: spec.KCmd, Cmd: spec.BuildCmd("FIN", in, []spec.PortDecl{{Name: "out"}}, nil, nil, nil), Outs: []*spec.Out{{Port: "out", Pattern: "{i:in}.fin.out"}}})
+		s.Conns = append(s.Conns, &spec.Conn{From: "src.out", To: "UP.in"}, &spec.Conn{From: "UP.out", To: "CNT.in"}, &spec.Conn{From: "CNT.out", To: "FIN.in"})
+		cfg := Cfg{Buf: []int{1, 3, 128}[i%3], Procs: 2}
+		desc := map[string]interface{}{"spec": s, "cfg": cfg}
+		wd := filepath.Join(root, "wd")
+		var pre run.Snapshot
+		if !link {
+			desc["history"] = "the pass-through output (= the input file) exists before the first run; run, run again"
+			// the source files are made by Prepare; snapshot them through a dry preparation
+			cs := &run.Case{Root: root, Spec: s}
+			if _, _, err := cs.Prepare(); err != nil {
+				c.Inconclusive("prepare: " + err.Error())
+				return
+			}
+			pre = run.Snap(wd)
+		}
+		res := execSpec(c, root, s, cfg, nil, !link, 0)
+		if res.Hang != "" && !strings.HasPrefix(res.Hang, "deadlock") {
+			c.Inconclusive(res.Hang)
+			return
+		}
+		var ps []mon.Problem
+		wantStarts := 6
+		if !link {
+			wantStarts = 4
+		}
+		if res.Hang != "" || res.Exit != 0 || !res.Returned {
+			ps = append(ps, mon.Problem{Sig: "exit-nonzero", Msg: fmt.Sprintf("first run: exit %d %s: %s", res.Exit, res.Hang, tail(res.Output(), 400))})
+		} else if !link {
+			if n := starts(res.Trace, "UP"); n != 0 {
+				ps = append(ps, mon.Problem{Sig: "executed-command-of-existing-output", Msg: fmt.Sprintf("the first run executed %d commands of UP, whose output files (its input files) all existed", n)})
+			}
+			ps = append(ps, statChanges(pre, run.Snap(wd), []string{"data/n0.txt", "data/n1.txt"})...)
+		}
+		if len(ps) == 0 && starts(res.Trace, "") != wantStarts {
+			ps = append(ps, mon.Problem{Sig: "exit-nonzero", Msg: fmt.Sprintf("first run executed %d commands, expected %d", starts(res.Trace, ""), wantStarts)})
+		}
+		if len(ps) > 0 {
+			for _, sig := range sigSet(ps) {
+				desc["problems"] = mon.Summarize(ps, 10)
+				c.Violation(sig, strings.Join(mon.Summarize(ps, 4), "\n  "), desc)
+			}
+			return
+		}
+		if link {
+			desc["history"] = "complete run; the outputs of the first process are moved to another directory and linked back; run again"
+			for k, n := range []string{"data/n0.txt.up.out", "data/n1.txt.up.out"} {
+				if _, err := os.Stat(filepath.Join(wd, n)); err != nil {
+					c.Violation("exit-nonzero", "expected output of UP is not there after the first run: "+err.Error(), desc)
+					return
+				}
+				os.Rename(filepath.Join(wd, n), filepath.Join(wd, "archive", filepath.Base(n)))
+				target := "../archive/" + filepath.Base(n)
+				if (i/2+k)%2 == 1 {
+					target = filepath.Join(wd, "archive", filepath.Base(n))
+				}
+				if err := os.Symlink(target, filepath.Join(wd, n)); err != nil {
+					c.Inconclusive("symlink: " + err.Error())
+					return
+				}
+			}
+		}
+		before := run.Snap(wd)
+		var outs []string
+		for p, e := range before {
+			if e.Mode != "d" && !strings.HasSuffix(p, ".audit.json") {
+				outs = append(outs, p)
+			}
+		}
+		var rp []mon.Problem
+		for x := 1; x <= 2 && len(rp) == 0; x++ {
+			rx := execSpec(c, root, s, cfg, nil, true, x)
+			if rx.Hang != "" && !strings.HasPrefix(rx.Hang, "deadlock") {
+				c.Inconclusive(rx.Hang)
+				return
+			}
+			if rx.Hang != "" || rx.Exit != 0 || !rx.Returned {
+				rp = append(rp, mon.Problem{Sig: "rerun-failed", Msg: fmt.Sprintf("re-run %d: exit %d %s: %s", x, rx.Exit, rx.Hang, tail(rx.Output(), 400))})
+			}
+			for _, e := range rx.Trace {
+				if e.Ev == "start" {
+					rp = append(rp, mon.Problem{Sig: "rerun-executed-command", Msg: fmt.Sprintf("re-run %d executed %s although its output exists", x, e.Key)})
+				}
+			}
+			after := run.Snap(wd)
+			rp = append(rp, statChanges(before, after, outs)...)
+			for p, e := range after {
+				if _, ok := before[p]; !ok && e.Mode != "d" {
+					rp = append(rp, mon.Problem{Sig: "rerun-new-file", Msg: fmt.Sprintf("re-run %d created %s", x, p)})
+				}
+			}
+		}
+		if len(rp) > 0 {
+			for _, sig := range sigSet(rp) {
+				desc["problems"] = mon.Summarize(rp, 10)
+				c.Violation(sig, fmt.Sprintf("%v: %s", desc["history"], strings.Join(mon.Summarize(rp, 4), "\n  ")), desc)
+			}
+			return
+		}
+		c.Count("outputs_stat_compared", len(outs))
+		c.Nontrivial(fmt.Sprintf("linkpass|%v|%d", link, i))
 	})
 }
